@@ -30,6 +30,7 @@ POSITIONS = {
     "field_default": ("count", "value"),
     "method": ("total", "value"),
     "class": ("Tank", "type"),
+    "class_constructed_before_declaration": ("Bin", "type"),
     "class_field": ("level", "value"),
     "class_field_default": ("spare", "value"),
     "mut_method": ("fill", "value"),
@@ -53,6 +54,7 @@ POSITIONS = {
     "loop_var_mutated_through": ("member", "value"),
     "mut_list_local": ("fleet", "value"),
     "mut_param_mutated": ("target", "value"),
+    "eq_method_param": ("peer", "value"),
     "main_mut_local": ("tank", "value"),
 }
 
@@ -135,6 +137,11 @@ def run(tier):
                 p, i = tpos[(k * 3 + j * 4) % len(tpos)]
                 if n not in used:
                     cases.append((p, n, rename(BASE, i, n)))
+        # lower-case type names matter where constructor detection falls back on capitalisation
+        for n in ("point", "lower_name"):
+            if n in legal and n not in used:
+                cases.append(("class_constructed_before_declaration", n, rename(BASE, "Bin", n)))
+                cases.append(("model", n, rename(BASE, "Item", n)))
         cases = list({(p, n): (p, n, s) for p, n, s in cases}.values())
     # pairs of positions (thorough): two different positions renamed to two different keywords
     if tier == "thorough":
@@ -181,7 +188,8 @@ def run(tier):
         "nested_module_file": lambda n: ({"prog.incn": f"from pkg.{n} import item_fn, other_fn\n\n\ndef main() -> None:\n    println(item_fn())\n    println(other_fn())\n", f"pkg/{n}.incn": MODLIB}),
         "module_directory": lambda n: ({"prog.incn": f"from {n}.inner import item_fn, other_fn\n\n\ndef main() -> None:\n    println(item_fn())\n    println(other_fn())\n", f"{n}/inner.incn": MODLIB}),
     }
-    mod_names = [n for n in RUST_KEYWORDS + GENERATED if n in legal and n == n.lower()] + ["helper_mod"]
+    # `std` is Incan's own library namespace (never resolved on disk): not a legal user module name
+    mod_names = [n for n in RUST_KEYWORDS + GENERATED if n in legal and n == n.lower() and n != "std"] + ["helper_mod"]
     if tier != "thorough":
         mod_names = [n for k, n in enumerate(mod_names) if k % 3 == 0 or n == "helper_mod"]
     mjobs = []
